@@ -109,6 +109,29 @@ CHECKS = {
             "through 7 protocol views.",
             "Trusted: os.listdir/os.stat interposition (hit counter checked).",
             "DESIGN.md §3 C12"),
+    "C13": ("exploration",
+            "runtime monitoring: differential element/attribute skeletons (inert vs hostile data) of every generated page "
+            "parsed with an independent HTML parser, canary elements/attributes, HTTP header whitelist, Gopher+ block "
+            "structure under block-header look-alikes",
+            "Held on the executions produced: 11 echo positions x ~12-30 payloads x HTTP/HTTPS/WAP (+Gopher+ listings "
+            "from hostile sidecars).",
+            "Trusted: html.parser as the model of how a browser tokenises the page.",
+            "DESIGN.md §3 C13"),
+    "C15": ("exploration",
+            "runtime monitoring: parsed block structure of $ / ! / + replies compared with the plain Gopher menu, the "
+            "configured MIME table, file sizes and the sidecar files' lines",
+            "Held on the executions produced: 200 (quick) generated directories with every subset of the four sidecars "
+            "on files and directories, virtual items, sizes around the 1024-byte unit.",
+            "Trusted: the Gopher+ parser in vf/parsers.py.",
+            "DESIGN.md §3 C15"),
+    "C16": ("exploration",
+            "runtime monitoring: differential /T.zip/<sel> vs /T/<sel> (same tree extracted) over all members, "
+            "directories, link targets, missing names and hostile suffixes in 10 protocol views; audit-hook monitor "
+            "for real-file-only handlers; escaping symlink members",
+            "Held on the executions produced: generated archives with explicit/implicit directories, UTF-8-flag and raw "
+            "byte names, metadata files, five kinds of symlink members, nested and special members.",
+            "Trusted: the harness's ZIP writer (vf/trees.py to_zip) and the extracted mirror.",
+            "DESIGN.md §3 C16"),
 }
 
 NOT_YET = "check not built yet in this session (work in progress); see DESIGN.md §3 for the planned monitor"
